@@ -160,17 +160,17 @@ def build_harness(prop, race=False):
     mod = open(os.path.join(hdir, "go.mod")).read().replace("=> /repo", "=> " + REPO)
     tag = hashlib.sha1(REPO.encode()).hexdigest()[:6]
     modfile = os.path.join(wd, "h_%s.mod" % tag)
-    open(modfile, "w").write(mod)
-    try:
-        shutil.copyfile(os.path.join(REPO, "go.sum"), modfile[:-4] + ".sum")
-    except Exception:
-        pass
     exe = os.path.join(BIN, "h_" + prop.lower() + ("_race" if race else "") + ("" if REPO == "/repo" else "_" + tag))
     cmd = ["go", "build", "-modfile", modfile, "-tags", "verif", "-o", exe]
     if race:
         cmd.append("-race")
     cmd.append("./" + prop.lower())
     with Lock("gobuild_" + prop):
+        open(modfile, "w").write(mod)
+        try:
+            shutil.copyfile(os.path.join(REPO, "go.sum"), modfile[:-4] + ".sum")
+        except Exception:
+            pass
         rc, out, dt = sh(cmd, cwd=hdir, env=goenv(), timeout=900)
     return rc, out, exe
 
